@@ -1,5 +1,5 @@
 (* Property C08 - genotype -> allele-count classification is total and exact. Statements + exact + Print Assumptions. *)
-From Sfs Require Import Index ArrayM Scalar Spectrum Project Create SampleParse Npy Text Container IndexP ArrayP BinomP ProjectP CreateP CreateSpecP SampleParseP SampleParseGenP ContainerP.
+From Sfs Require Import Index ArrayM Scalar Spectrum Project Create SampleParse Npy Text Container IndexP ArrayP BinomP ProjectP CreateP CreateSpecP SampleParseP SampleParseGenP ContainerP SampleFieldP.
 From Coq Require Import Permutation.
 Close Scope string_scope.
 
@@ -83,6 +83,42 @@ Theorem C08_bcf_binary_path : forall (g : agt) (w : nat),
   g <> [] -> int8_ok g = true -> (length g <= w)%nat -> bcf_field_gt (hts_encode g w) = Some (Some (map fst g)).
 Proof. exact (@bcf_field_hts). Qed.
 Print Assumptions C08_bcf_binary_path.
+Close Scope N_scope.
+
+(* VCF text path, whole sample: the genotype of a sample is its GT value, whatever other FORMAT values follow (present, missing or dropped) *)
+Open Scope N_scope.
+Theorem C08_vcf_sample_gt_is_its_first_value : forall keys gt others,
+  keys_ok keys -> value_ok gt -> Forall value_ok others -> (length others < length keys)%nat ->
+  vcf_sample_gt keys (sample_text (gt :: others)) = vcf_field_gt gt.
+Proof. exact (@sample_gt_is_first_value). Qed.
+Print Assumptions C08_vcf_sample_gt_is_its_first_value.
+Close Scope N_scope.
+
+(* ... so two samples with the same GT value have the same genotype *)
+Open Scope N_scope.
+Theorem C08_vcf_sample_other_values_irrelevant : forall keys gt others others',
+  keys_ok keys -> value_ok gt -> Forall value_ok others -> Forall value_ok others' ->
+  (length others < length keys)%nat -> (length others' < length keys)%nat ->
+  vcf_sample_gt keys (sample_text (gt :: others)) = vcf_sample_gt keys (sample_text (gt :: others')).
+Proof. exact (@sample_gt_ignores_other_values). Qed.
+Print Assumptions C08_vcf_sample_other_values_irrelevant.
+Close Scope N_scope.
+
+(* a sample that is '.' as a whole has no genotype *)
+Open Scope N_scope.
+Theorem C08_vcf_sample_missing : forall keys,
+  keys_ok keys -> vcf_sample_gt keys [46] = Some None.
+Proof. exact (@sample_missing). Qed.
+Print Assumptions C08_vcf_sample_missing.
+Close Scope N_scope.
+
+(* end to end: a genotype written into a sample next to any other values is classified by its alleles *)
+Open Scope N_scope.
+Theorem C08_vcf_sample_classification : forall keys (g : agt) others,
+  keys_ok keys -> g <> [] -> int8_ok g = true -> Forall value_ok others -> (length others < length keys)%nat ->
+  classify_field (vcf_sample_gt keys (sample_text (render_gt g :: others))) = Some (classify (Some (map fst g))).
+Proof. exact (@sample_classification). Qed.
+Print Assumptions C08_vcf_sample_classification.
 Close Scope N_scope.
 
 (* both paths give the classification of the alleles: the VCF text path and the BCF binary path agree on every genotype *)
